@@ -364,7 +364,7 @@ def judge_variable_sequence(rec, rnd):
             return
 
 
-def judge_migrating_run(rec, tmp, rnd):
+def judge_migrating_run(rec, tmp, rnd, force=False):
     """`rule_mode: most_specific` and rules still in the legacy CSV: the run that migrates them (`tally up --migrate`) already classifies with the migrated
     rules file - in the configured mode, exactly like every later run."""
     import json as _json
@@ -378,6 +378,9 @@ def judge_migrating_run(rec, tmp, rnd):
     if rnd.random() < .5:
         rows.reverse()
     mode = rnd.choice(['most_specific', 'most_specific', 'first_match'])
+    if force:
+        rows.sort(key=lambda r: len(r[0]))      # the general row first, most_specific configured: the two modes give different answers
+        mode = 'most_specific'
     with open(os.path.join(root, 'config', 'settings.yaml'), 'w') as f:
         f.write('year: 2025\nrule_mode: %s\ndata_sources:\n  - name: Card\n    file: data/card.csv\n    format: "{date:%%Y-%%m-%%d},{description},{amount}"\n' % mode)
     with open(os.path.join(root, 'config', 'merchant_categories.csv'), 'w') as f:
@@ -385,8 +388,8 @@ def judge_migrating_run(rec, tmp, rnd):
     with open(os.path.join(root, 'data', 'card.csv'), 'w') as f:
         f.write('Date,Description,Amount\n2025-01-03,%s GAS #0123,40.20\n' % w)
     out = []
-    for extra in (['--migrate'], []):
-        p = B.tally(root, 'up', os.path.join(root, 'config'), '--format', 'json', '-v', *extra)
+    for extra in (['--migrate', '-v'], ['-v'], ['-q'], []):
+        p = B.tally(root, 'up', os.path.join(root, 'config'), '--format', 'json', *extra)
         rec.count('cli_runs')
         try:
             js = B.json_from_stdout(p.stdout)
@@ -400,6 +403,8 @@ def judge_migrating_run(rec, tmp, rnd):
     case = {'kind': 'migrating-run'}
     if out[0] != out[1]:
         rec.violation('migrating-run-classifies-differently-from-the-next-run', f'rule_mode {mode}, CSV rows {rows}: `up --migrate` reports {out[0]}, the next `up` reports {out[1]}', case)
+    elif out[2] != out[1] or out[3] != out[1]:
+        rec.violation('rule-mode-depends-on-verbosity', f'rule_mode {mode}, rules {rows} (migrated): `up -v` reports {out[1]}, `up -q` {out[2]}, plain `up` {out[3]}', case)
     elif out[1] != want:
         rec.violation('configured-rule-mode-not-applied-after-migration', f'rule_mode {mode}, CSV rows {rows}: reports {out[1]}, expected {want}', case)
     shutil.rmtree(root, ignore_errors=True)
@@ -457,6 +462,8 @@ def run(rec, shard, nshards, t):
                 judge_migrating_run(rec, tmp, rnd)
         for _ in range(2 if t == 'quick' else 10):
             judge_rule_mode_setting(rec, tmp, rnd)
+        if shard == 0:
+            judge_migrating_run(rec, tmp, rnd, force=True)
     finally:
         shutil.rmtree(tmp, ignore_errors=True)
 
